@@ -6,3 +6,8 @@ package hermes
 // "verif" build tag it does nothing.
 func verifProbe(stage string, zeit, subd int, wdt float64, g *GlobalVarsMain, w *WaterSharedVars, n *NitroSharedVars) {
 }
+
+// verifConfig is the verification probe for the effective configuration of a run (called right after
+// readConfig); without the "verif" build tag it does nothing.
+func verifConfig(c *Config, g *GlobalVarsMain) {
+}
